@@ -64,6 +64,9 @@ def main(argv):
         except slicer.SliceError as e:
             print('INCONCLUSIVE: slicer: %s' % e); inconclusive.append('slicer[%s]: %s' % (name, e)); continue
         units[name] = (mod, jobs); slice_recs[name] = recs
+        for rec in recs:
+            if rec.get('error'):
+                print('INCONCLUSIVE: slicer: %s' % rec['error']); inconclusive.append('slicer[%s.%s]: %s' % (name, rec['name'], rec['error']))
     if not units and not inconclusive and not ONLY_UNITS:
         print('no jobs registered for', prop); return 2
     # 2. jobs + vacuity probes
